@@ -136,6 +136,30 @@ def check_decoded_cell_against_record(cell, buf, rec_violation):
     kind = cellrec.TYPES.get(r["type"])
     if kinds is not None and kind not in kinds:
         rec_violation("dec_kind", {"cls": type(cell).__name__, "type": r["type"]}, {"buf": bytes(buf).hex()})
+    # the payload, where the record's kind says which field carries it
+    try:
+        got = cell.value
+        if kind in ("number", "currency") and "d128" in r:
+            from vf.ref import d128
+            dd = d128.decode(r["d128"])
+            want = float(dd)
+            if not (isinstance(got, (int, float)) and not isinstance(got, bool) and float(got) == want):
+                rec_violation("dec_payload", {"payload": "d128", "coefficient_digits": "<=17" if len(dd.as_tuple().digits) <= 17 else ">17"},
+                              {"want": repr(want), "got": repr(got), "d128": bytes(r["d128"]).hex()})
+        elif kind == "date" and "seconds" in r:
+            from datetime import datetime, timedelta
+            want = datetime(2001, 1, 1) + timedelta(seconds=r["seconds"])
+            if got != want:
+                rec_violation("dec_payload", {"payload": "seconds"}, {"want": repr(want), "got": repr(got)})
+        elif kind == "bool" and "double" in r:
+            if got is not (r["double"] > 0):
+                rec_violation("dec_payload", {"payload": "bool"}, {"want": r["double"] > 0, "got": repr(got)})
+        elif kind == "duration" and "double" in r:
+            from datetime import timedelta
+            if got != timedelta(seconds=r["double"]):
+                rec_violation("dec_payload", {"payload": "duration"}, {"want": r["double"], "got": repr(got)})
+    except (OverflowError, ValueError):
+        pass  # a payload outside the range of the host type (e.g. a date beyond year 9999): nothing to compare
     return r
 
 
@@ -422,8 +446,21 @@ def _install_ref_events():
             single = not node.HasField("AST_colon_tract")
             lib_flags = (bool(res.row_start_is_abs), bool(res.row_start_is_abs if single else res.row_end_is_abs),
                          bool(res.col_start_is_abs), bool(res.col_start_is_abs if single else res.col_end_is_abs))
+            # the stored target table, from the node's own UUID and the tables' own base ids - not from the library's resolution of it
+            stored_to = None
+            if node.HasField("AST_cross_table_reference_extra_info"):
+                from numbers_parser.numbers_uuid import NumbersUUID
+                want_uuid = NumbersUUID(node.AST_cross_table_reference_extra_info.table_id).hex
+                stored_to = "unknown"
+                for sid in self.sheet_ids():
+                    for tid in self.table_ids(sid):
+                        if self.table_base_id(tid) == want_uuid:
+                            stored_to = tid
             ev = {"table_id": table_id, "host": (row, col), "node": node, "range": res, "den": (rows, cols, tuple(bool(x) for x in flags)), "text": None,
-                  "to_table_id": res.to_table_id}
+                  "to_table_id": res.to_table_id if stored_to in (None, "unknown") else stored_to, "lib_to_table_id": res.to_table_id}
+            if stored_to not in (None, "unknown") and res.to_table_id != stored_to:
+                _vio("C09", "ref_denotation", {"what": "target-table", "tract": node.HasField("AST_colon_tract")},
+                     {"host": [row, col], "lib": res.to_table_id, "stored": stored_to, "host_table": table_id})
             res._vf_event = ev
             events.append(ev)
             if (lib_rows, lib_cols) != (rows, cols):
